@@ -204,7 +204,8 @@ func (b *Buffer) endRedactable() {
 	if len(b.buf) == 0 {
 		return
 	}
-	if bytes.HasSuffix(b.buf, m.StartBytes) {
+	if bytes.HasSuffix(b.buf, m.StartBytes) &&
+		!endsWithIncompleteRune(b.buf[:len(b.buf)-m.StartLen]) {
 		// Special case: remove a trailing open marker and call it a day.
 		b.buf = b.buf[:len(b.buf)-m.StartLen]
 	} else {
@@ -226,7 +227,8 @@ func (b *Buffer) startWrite() {
 
 // endRedactable adds the closing redaction marker.
 func (b *Buffer) startRedactable() {
-	if bytes.HasSuffix(b.buf, m.EndBytes) {
+	if bytes.HasSuffix(b.buf, m.EndBytes) &&
+		!endsWithIncompleteRune(b.buf[:len(b.buf)-m.EndLen]) {
 		// Special case: remove a trailing closing marker and call it a day.
 		b.buf = b.buf[:len(b.buf)-m.EndLen]
 	} else {
@@ -257,9 +259,13 @@ func (b *Buffer) SetMode(newMode OutputMode) {
 		// noop
 		return
 	}
-	if b.mode == UnsafeEscaped || b.mode == SafeEscaped {
-		b.escapeToEnd(b.mode == UnsafeEscaped /* breakNewLines */)
+	if b.mode == SafeRaw {
+		// Raw data is taken as-is, but it must not be possible for later
+		// writes to complete a marker that raw data left unfinished:
+		// escapeToEnd() guards a trailing partial UTF-8 sequence.
+		b.validUntil = len(b.buf)
 	}
+	b.escapeToEnd(b.mode == UnsafeEscaped /* breakNewLines */)
 	if b.markerOpen {
 		b.endRedactable()
 	}
@@ -335,6 +341,14 @@ func (b *Buffer) clone() *Buffer {
 	c := *b
 	c.buf = append([]byte(nil), b.buf...)
 	return &c
+}
+
+// endsWithIncompleteRune reports whether p ends with a truncated or
+// otherwise invalid UTF-8 sequence, which bytes written later could
+// complete into a redaction marker.
+func endsWithIncompleteRune(p []byte) bool {
+	r, s := utf8.DecodeLastRune(p)
+	return s == 1 && r == utf8.RuneError
 }
 
 // makeSlice allocates a slice of size n. If the allocation fails, it panics
